@@ -1,7 +1,7 @@
 """Grammar-directed family of EXPRESS schemas (valid by construction) and single-fault mutants of them.
 Used by the front-end properties C04, C06, C12, C17, C18, C20 (and, with expref, C07)."""
 import re, os, glob
-from . import smodel
+from . import smodel, common
 
 KS = r"""SCHEMA ks;
 CONSTANT
@@ -125,13 +125,21 @@ MINI = {
     'm_const': "SCHEMA m_const;\nCONSTANT\n  k1 : INTEGER := 3;\n  k2 : REAL := 2.5;\n  k3 : STRING := 'abc';\n  k4 : BOOLEAN := TRUE;\nEND_CONSTANT;\nENTITY a; v : INTEGER;\n WHERE wr1 : v < k1;\nEND_ENTITY;\nEND_SCHEMA;\n",
     'm_remarks': "SCHEMA m_remarks; -- tail remark\n(* embedded (* nested *) remark *)\nENTITY a; -- attr follows\n  v : INTEGER; (* inline *)\nEND_ENTITY;\nEND_SCHEMA; -- end\n",
     'm_case': "SCHEMA M_Case;\nTYPE Col = ENUMERATION OF (Red, Green); END_TYPE;\nENTITY Ab; V : Col; W : OPTIONAL INTEGER; END_ENTITY;\nENTITY aB2 SUBTYPE OF (AB); END_ENTITY;\nEND_SCHEMA;\n",
+    # string literals are data: what printf would make of them is nobody's business (short ones, one long enough to be split, in every place a
+    # literal can stand)
+    'm_percent': ("SCHEMA m_percent;\nCONSTANT\n  c1 : STRING := 'loaded %d of %d items';\n  c2 : STRING := '100%% of %s';\n  c3 : STRING := '%x %5.2f %c %p %n';\n"
+                  "  c4 : STRING := 'a long literal with a conversion %d in it that does not fit on one line of the usual length, so that the printer has to split it %s %x somewhere';\nEND_CONSTANT;\n"
+                  "TYPE tt = STRING;\n WHERE\n  wt : SELF <> 'type %d rule %s';\nEND_TYPE;\n"
+                  "ENTITY tank; label : STRING; level : INTEGER;\n DERIVE\n  shown : STRING := 'level %d/%d';\n WHERE\n  wr1 : label <> 'value in %x';\n  wr2 : label <> '%d %%';\nEND_ENTITY;\n"
+                  "FUNCTION ff (s : STRING) : STRING;\n  IF s = 'in %d function' THEN RETURN ('%s'); END_IF;\n  RETURN ('%d%d%d%d%d%d%d%d');\nEND_FUNCTION;\n"
+                  "RULE rr FOR (tank);\n WHERE\n  wr1 : SIZEOF (QUERY (t <* tank | t.label = 'rule %d %s')) = 0;\nEND_RULE;\nEND_SCHEMA;\n"),
     'm_strlit': "SCHEMA m_strlit;\nCONSTANT\n  s1 : STRING := 'plain';\n  s2 : STRING := 'it''s';\n  s3 : STRING := \"00000041\";\n  s4 : STRING := '';\n  b1 : BINARY := %0101;\nEND_CONSTANT;\nEND_SCHEMA;\n",
 }
 
 
 def shipped():
     out = []
-    for p in sorted(glob.glob('/repo/data/*/*.exp')) + sorted(glob.glob('/repo/test/unitary_schemas/*.exp')):
+    for p in sorted(glob.glob(common.REPO + '/data/*/*.exp')) + sorted(glob.glob(common.REPO + '/test/unitary_schemas/*.exp')):
         if os.path.basename(p).startswith('fail_'):
             continue      # shipped on purpose as an invalid schema
         out.append((os.path.basename(os.path.dirname(p)) + '/' + os.path.basename(p), p))
@@ -483,3 +491,64 @@ def diagnostic_catalogue():
     # a schema looked up through EXPRESS_PATH whose file holds another schema
     yield {'kind': 'catalogue', 'cls': 'schema-not-in-own-file', 'expect': ['SCHEMA_NOT_IN_OWN_SCHEMA_FILE'], 'detail': 'SCHEMA_NOT_IN_OWN_SCHEMA_FILE', 'planted': 'zq_ext', 'name': 'cat',
            'text': 'SCHEMA zq_cat;\nREFERENCE FROM zq_ext (thing);\nEND_SCHEMA;\n', 'extra_files': {'zq_ext.exp': 'SCHEMA zq_other;\nENTITY thing; END_ENTITY;\nEND_SCHEMA;\n'}}
+
+
+def visibility_family():
+    """(name, text, valid, planted) - which attribute names an entity may mention.  Hierarchy root <- mid <- leaf, sib SUBTYPE OF root, an unrelated
+    entity other; every (context entity, attribute of any of the five, kind of mention) - the mention is legal exactly when the attribute is declared in
+    the context entity or one of its supertypes.  A name that exists only in a subtype, a sibling or an unrelated entity is as undefined as one that
+    exists nowhere."""
+    ents = ['root', 'mid', 'leaf', 'sib', 'other']
+    sup = {'root': [], 'mid': ['root'], 'leaf': ['mid', 'root'], 'sib': ['root'], 'other': []}
+    decl = {'root': 'ENTITY root SUPERTYPE OF (ONEOF (mid, sib));', 'mid': 'ENTITY mid SUPERTYPE OF (leaf) SUBTYPE OF (root);', 'leaf': 'ENTITY leaf SUBTYPE OF (mid);',
+            'sib': 'ENTITY sib SUBTYPE OF (root);', 'other': 'ENTITY other;'}
+    out = []
+    for ctx in ents:
+        for own in ents:
+            for kind in ('where-bare', 'where-self', 'derive', 'unique', 'inverse', 'group'):
+                ok = own == ctx or own in sup[ctx]
+                if kind == 'group' and (own == ctx or not ok):
+                    continue                                # SELF\\own.attr needs own to be a supertype; other cases are the undefined-supertype class
+                if not ok and kind in ('where-self', 'unique') and own != 'other' and ctx != 'other':
+                    # a qualified mention (SELF.x, a UNIQUE rule) of an attribute found elsewhere in the same hierarchy is the front end's
+                    # "implicit downcast" (warning PW014), a deliberate leniency: not judged
+                    ok = None
+                a_num, a_ref = own[0] + '_num', own[0] + '_ref'
+                body = 'ENTITY keeper; kname : STRING;'
+                if kind == 'inverse':
+                    body += '\n INVERSE\n  things : SET [0:?] OF %s FOR %s;' % (ctx, a_ref)
+                body += '\nEND_ENTITY;\n'
+                for e in ents:
+                    body += decl[e] + '\n  %s_num : REAL;\n  %s_ref : keeper;\n' % (e[0], e[0])
+                    if e == ctx:
+                        if kind == 'where-bare':
+                            body += ' WHERE\n  wr1 : %s > 0.0;\n' % a_num
+                        elif kind == 'where-self':
+                            body += ' WHERE\n  wr1 : SELF.%s > 0.0;\n' % a_num
+                        elif kind == 'derive':
+                            body += ' DERIVE\n  dd : REAL := %s * 2.0;\n' % a_num
+                        elif kind == 'unique':
+                            body += ' UNIQUE\n  ur1 : %s;\n' % a_num
+                        elif kind == 'group':
+                            body += ' WHERE\n  wr1 : SELF\\%s.%s > 0.0;\n' % (own, a_num)
+                    body += 'END_ENTITY;\n'
+                # the order of DERIVE / UNIQUE / WHERE inside an entity is fixed by the grammar; only one clause is present here
+                out.append(('vis_%s_in_%s_%s' % (own, ctx, kind), 'SCHEMA vis;\n' + body + 'END_SCHEMA;\n', ok, a_ref if kind == 'inverse' else a_num))
+    return out
+
+
+def interface_paths():
+    """(name, text, valid) - one item reaching a schema along two interface paths (legal: it is the same item) and two different items interfaced under
+    one name (a duplicate declaration), for USE and REFERENCE"""
+    out = []
+    for kw in ('USE', 'REFERENCE'):
+        base = 'SCHEMA base_s;\nENTITY point; x : REAL; END_ENTITY;\nENTITY pixel; i : INTEGER; END_ENTITY;\nEND_SCHEMA;\n'
+        mid = 'SCHEMA mid_s;\nUSE FROM base_s (point);\nENTITY segment; a : point; b : point; END_ENTITY;\nEND_SCHEMA;\n'
+        out.append(('paths_%s_diamond' % kw.lower(), base + mid + 'SCHEMA top_s;\n%s FROM base_s (point);\n%s FROM mid_s (point, segment);\nENTITY poly; first : point; parts : LIST [1:?] OF segment; END_ENTITY;\nEND_SCHEMA;\n' % (kw, kw), True))
+        out.append(('paths_%s_diamond_reversed' % kw.lower(), base + mid + 'SCHEMA top_s;\n%s FROM mid_s (point, segment);\n%s FROM base_s (point);\nENTITY poly; first : point; parts : LIST [1:?] OF segment; END_ENTITY;\nEND_SCHEMA;\n' % (kw, kw), True))
+        out.append(('paths_%s_twice_same' % kw.lower(), base + 'SCHEMA top_s;\n%s FROM base_s (point);\n%s FROM base_s (point);\nENTITY holder; it : point; END_ENTITY;\nEND_SCHEMA;\n' % (kw, kw), True))
+        out.append(('paths_%s_same_alias_twice' % kw.lower(), base + 'SCHEMA top_s;\n%s FROM base_s (point AS p);\n%s FROM base_s (point AS p);\nENTITY holder; it : p; END_ENTITY;\nEND_SCHEMA;\n' % (kw, kw), True))
+        out.append(('paths_%s_alias_clash' % kw.lower(), base + 'SCHEMA top_s;\n%s FROM base_s (point AS p, pixel AS p);\nENTITY holder; it : p; END_ENTITY;\nEND_SCHEMA;\n' % kw, False))
+        out.append(('paths_%s_alias_clash_two_clauses' % kw.lower(), base + 'SCHEMA top_s;\n%s FROM base_s (point AS p);\n%s FROM base_s (pixel AS p);\nENTITY holder; it : p; END_ENTITY;\nEND_SCHEMA;\n' % (kw, kw), False))
+        out.append(('paths_%s_alias_clash_with_plain' % kw.lower(), base + 'SCHEMA top_s;\n%s FROM base_s (pixel AS point, point);\nENTITY holder; it : point; END_ENTITY;\nEND_SCHEMA;\n' % kw, False))
+    return out
